@@ -2083,3 +2083,168 @@ def _asarray_lm(engine, run, a, k):
 
 
 models.EXTERNALS["numpy.asarray"] = _asarray_lm
+
+
+# ---- the wrapper: periodic z by padding, spanning fallback, overlap removal ---------------------------------------------------------
+ZCAND = z3.Function("z_of_candidate", I, Rl)
+
+
+class PaddedMask:
+    def __init__(self, base, pad, mode, nr, nz):
+        self.base, self.pad, self.mode, self.nr, self.nz = base, pad, mode, nr, nz
+
+    def sym_getattr(self, run, attr):
+        if attr == "shape":
+            p = self.pad
+            try:
+                (r0, r1), (z0, z1) = p
+                return (self.nr + to_z3(r0) + to_z3(r1), self.nz + to_z3(z0) + to_z3(z1))
+            except Exception:   # noqa: BLE001
+                raise Undecided("np.pad with another padding specification")
+        return _MISSING
+
+
+@models.external("numpy.pad")
+def _np_pad(engine, run, a, k):
+    g = run.ghost.get("cylw")
+    if g is None:
+        raise Undecided("np.pad outside the cylindrical wrapper contract")
+    pm = PaddedMask(a[0], a[1] if len(a) > 1 else k.get("pad_width"), k.get("mode", a[2] if len(a) > 2 else "constant"), g["grid"].nr, g["grid"].nz)
+    g["pads"].append(pm)
+    run.trust("ASSUMED (numpy.pad, mode='wrap'): the image is continued periodically by the given number of cells on each side")
+    return pm
+
+
+class CandList(EmRec):
+    """what _locate_droplets_in_mask_cylindrical_single returns (its own contract is verified separately): candidates on the axis"""
+
+    def __init__(self, run, n):
+        super().__init__(None, None, {}, kind="candidates")
+        self.n = n
+        self.cells = {}
+
+    def cand(self, i):
+        i = to_z3(i)
+        key = i.get_id()
+        if key not in self.cells:
+            pos = SArr([z3.RealVal(0), z3.RealVal(0), ZCAND(i)])
+            d = Sym(f"candidate[{i}]", term=i, attrs={"position": pos})
+            d.index, d.pos = i, pos
+            self.cells[key] = d
+        return self.cells[key]
+
+    def sym_iter(self, run):
+        return SSeq(self.n, lambda i: self.cand(i), "candidates", "list")
+
+    def sym_len(self, run):
+        return self.n - self.n_removed if self.calls else self.n
+
+
+from .io import Sym   # noqa: E402
+
+
+@register
+class CylSingleCall(Contract):
+    key = KEY_CYS
+    variant = "call"
+    call_site = True
+
+    def cases(self):
+        return []
+
+    def apply(self, engine, run, fi, args, kwargs):
+        g = run.ghost.get("cylw")
+        if g is None:
+            return NotImplemented
+        g["single_calls"].append(list(args))
+        run.trust(f"contract:{KEY_CYS} (verified separately): one on-axis candidate per on-axis object of the given image, or the spanning signal")
+        if g["spanning"] and len(g["single_calls"]) == 1 and isinstance(args[1], PaddedMask):
+            raise SymRaise(SExc("_SpanningDropletSignal", ()))
+        cl = CandList(run, run.fresh_int("n_candidates"))
+        run.assume(cl.n >= 0)
+        g["cand_lists"].append(cl)
+        return cl
+
+
+class CylKeepLoop(LoopSpec):
+    force = True
+
+    def invariant(self, run, env, i, seq):
+        return []
+
+    def before_body(self, run, env, i, seq):
+        g = run.ghost["cylw"]
+        em = env["droplets"]
+        g["n_app0"] = len(em.calls) if isinstance(em, EmRec) else 0
+
+    def after_body(self, run, env, i, seq):
+        g = run.ghost["cylw"]
+        grid = g["grid"]
+        em = env["droplets"]
+        d = seq.at(i)
+        z_new = to_real(d.pos.elems[2])
+        L = z3.ToReal(grid.nz) * grid.dz
+        run.oblige("a candidate of the padded image is moved back by exactly one period (the left padding), once", z_new == ZCAND(d.index) - L,
+                   kind="ensures", assume_after=False)
+        apps = [c for c in (em.calls[g["n_app0"]:] if isinstance(em, EmRec) else []) if c[0] == "append"]
+        inside = z3.And(z_new >= grid.z0, z_new < grid.z0 + L)
+        run.oblige("the candidate is kept exactly when its centre lies in the half-open box [z_min, z_max) - every periodic image is represented once",
+                   z3.And(z3.BoolVal(len(apps) <= 1 and all(c[1] == [d] and not c[2] for c in apps)), z3.BoolVal(len(apps) == 1) == inside),
+                   kind="ensures", assume_after=False)
+
+
+LOOPS[(KEY_CYL, 0)] = CylKeepLoop()
+
+
+@register
+class LocateCylWrapper(Contract):
+    key = KEY_CYL
+    variant = "wrapper"
+    modular = False
+
+    def cases(self):
+        return [dict(periodic=False, spanning=False), dict(periodic=True, spanning=False), dict(periodic=True, spanning=True)]
+
+    def setup(self, run, case):
+        from .structure import SFField
+        grid = SCylGrid(run, case["periodic"])
+        data = SOpaque("mask.data")
+        mask = SFField(grid, data)
+        run.ghost["cylw"] = dict(grid=grid, data=data, pads=[], single_calls=[], cand_lists=[], spanning=case["spanning"])
+        models.CONSTRUCTORS["Emulsion"] = _em_ctor
+        self.ctx = dict(run=run, grid=grid, mask=mask, data=data)
+        return dict(mask=mask)
+
+    def post(self, a, ret, case):
+        c = self.ctx
+        run, grid, data = c["run"], c["grid"], c["data"]
+        g = run.ghost["cylw"]
+        sc = g["single_calls"]
+        out = []
+        if case["periodic"]:
+            ok = len(g["pads"]) == 1 and g["pads"][0].base is data and g["pads"][0].mode == "wrap"
+            out.append(("with periodic z the image is continued periodically (wrap) ...", bool(ok)))
+            if ok:
+                p = g["pads"][0].pad
+                try:
+                    (r0, r1), (z0_, z1_) = p
+                    out.append(("... by one full period on both sides of the z-axis and not at all along r",
+                                z3.And(to_z3(r0) == 0, to_z3(r1) == 0, to_z3(z0_) == grid.nz, to_z3(z1_) == grid.nz)))
+                except Exception:   # noqa: BLE001
+                    out.append(("... by one full period on both sides of the z-axis and not at all along r", False))
+            out.append(("the padded image is analysed first, on the same grid", len(sc) >= 1 and sc[0][0] is grid and bool(g["pads"]) and sc[0][1] is g["pads"][0]))
+        if case["periodic"] and not case["spanning"]:
+            out.append(("no second analysis is made when the padded one succeeds", len(sc) == 1))
+            ok = isinstance(ret, EmRec) and ret.kind == "ctor" and not ret.source_seq
+            out.append(("the result is a new emulsion holding the kept candidates", bool(ok)))
+            if ok:
+                ro = [c_ for c_ in ret.calls if c_[0] != "append"]
+                out.append(("overlapping kept candidates (duplicates) are removed once before returning", len(ro) == 1 and ro[0][0] == [] and not ro[0][1]))
+        else:
+            out.append(("the image itself (unpadded) is analysed on its grid" + (" after the spanning signal" if case["spanning"] else ""),
+                        len(sc) == (2 if case["spanning"] else 1) and sc[-1][0] is grid and sc[-1][1] is data))
+            ok = isinstance(ret, CandList) and g["cand_lists"] and ret is g["cand_lists"][-1]
+            out.append(("its candidates are returned ...", bool(ok)))
+            if ok:
+                out.append(("... after overlapping ones have been removed, once", len(ret.calls) == 1 and ret.calls[0][0] == [] and not ret.calls[0][1]))
+        return out
